@@ -18,7 +18,7 @@ import time
 
 import rengine
 
-BOUND = ("about 60 argument vectors (version / flow / render / check with every source, valid and adversarial values: non-ASCII text, "
+BOUND = ("thorough tier: plus 600 seeded random argument vectors over the real flag set with adversarial values; quick tier: about 70 argument vectors (version / flow / render / check with every source, valid and adversarial values: non-ASCII text, "
          "numbers above u64::MAX, bad templates and format strings, malformed RON on stdin) x {plain, -v, RUST_LOG=debug}, plus every "
          "git-using vector with git missing, failing and printing garbage; stderr is a pipe")
 
@@ -97,6 +97,63 @@ VECTORS = [
 GIT_VECTORS = [["version"], ["version", "--source", "git"], ["flow"], ["version", "--output-format", "pep440", "--schema", "calver"]]
 
 
+_TEXTS = ["main", "feature/x", "féature/٣x", "release/7/x", "", " ", "a b", "日本語日本語", "abcdef€x", "-", "--x", "1", "0007", "x" * 300, "\u212a", "a/b/c/1/2", "'q'", "\"dq\"", "{{ x }}", "%Y"]
+_NUMS = ["0", "1", "7", "4294967295", "4294967296", "18446744073709551615", "18446744073709551616", "-1", "x", "", "1.5", "{{ major }}", "{{ major + 1 }}", "{{", "{{ nope }}", "{{ 1 / 0 }}"]
+_VERSIONS = ["1.2.3", "v1.2.3", "0.0.0", "1.2.3-alpha.1", "1.2.3-rc.1.post.2.dev.3+b.7", "1.0.0-post.x.post", "1.0.0-epoch.1.epoch", "1.0.0-dev.dev.dev", "1.0.0-alpha.beta.rc.1.2.3",
+             "1!2.0rc1.post2.dev3+x.1", "1.0+abc", "2024.3.15", "1", "1.2", "1.2.3.4.5", "nope", "", "١.٢.٣", "18446744073709551615.0.0", "1.0.0-18446744073709551616", "1.0.post4294967296",
+             "0!0", "1.0a", "1.0.dev", "1.0-1", "1.2.3-" + "a." * 50 + "z", "1.2.3+" + "9" * 40]
+_SCHEMAS = ["standard", "standard-no-context", "standard-context", "standard-base", "standard-base-prerelease", "standard-base-prerelease-post", "standard-base-prerelease-post-dev",
+            "standard-base-context", "standard-base-prerelease-post-dev-context", "calver", "calver-no-context", "calver-context", "calver-base", "calver-base-prerelease-post-dev-context", "bogus", ""]
+_RONS = ["(core:[var(Major),var(Minor),var(Patch)],extra_core:[],build:[])", "(core:[],extra_core:[],build:[])", "(core:[var(Patch),var(Major)],extra_core:[],build:[])",
+         "(core:[str(\"x\"),uint(7),var(ts(\"YYYY\")),var(ts(\"QQ\")),var(custom(\"a.b\"))],extra_core:[var(Epoch),var(PreRelease),var(Post),var(Dev)],build:[var(BumpedBranch),var(Distance),var(Dirty)])",
+         "(core:[var(Epoch)],extra_core:[var(Major)],build:[var(Post)])", "(core:[var(Major)", "nope", "(core:[var(Major),var(Major)],extra_core:[var(Post),var(Post)],build:[])",
+         "(core:[var(Major)],extra_core:[],build:[],precedence_order:[])", "(core:[var(Major)],extra_core:[],build:[],precedence_order:[Dev,Post,Major])"]
+_TEMPLATES = ["{{ major }}.{{ minor }}", "{{ semver }}|{{ pep440 }}", "{{ semver_obj.docker }}", "{{ hash(value=bumped_branch, length=0) }}", "{{ hash_int(value=bumped_branch, length=25, allow_leading_zero=true) }}",
+              "{{ prefix(value='aé日', length=2) }}", "{{ prefix_if(value=bumped_branch, prefix='+') }}", "{{ sanitize(value=bumped_branch, preset='dotted') }}", "{{ sanitize(value='x', preset='nope') }}",
+              "{{ sanitize(value='a-b', separator='', max_length=0) }}", "{{ format_timestamp(value=bumped_timestamp, format='%Y-%m-%d') }}", "{{ format_timestamp(value=1, format='%Q%') }}",
+              "{{ format_timestamp(value=99999999999999999) }}", "{{ custom.a.b }}", "{{ nope }}", "{{ major", "{% if dirty %}d{% endif %}", "", "{{ pre_release.label_code }}{{ pre_release.number }}",
+              "{{ hash_int(value='x', length=-1) }}", "{{ prefix(value=1, length='x') }}"]
+_INDEX_OPS = ["0=1", "1=x", "-1=5", "~1=2", "~0=1", "9=1", "=1", "0=", "x=1", "0=4294967296", "0={{ major }}", "0", "-1", "~1", "9", "x", "1=2=3"]
+_JSON = ["{}", "{\"a\": {\"b\": [1, 2]}}", "[1]", "null", "\"x\"", "{not json", "{\"a\": \"" + "z" * 200 + "\"}", "{\"a.b\": 1, \"a\": {\"b\": 2}}"]
+
+
+def _random_vector(rnd):
+    pick = rnd.choice
+    sub = pick(["version", "version", "version", "flow", "flow", "render", "check"])
+    argv = [sub]
+    if sub in ("version", "flow"):
+        argv += ["--source", pick(["none", "none", "none", "stdin", "git", "bogus"])]
+        opts = [lambda: ["--tag-version", pick(_VERSIONS)], lambda: ["--input-format", pick(["semver", "pep440", "auto", "bogus"])],
+                lambda: ["--output-format", pick(["semver", "pep440", "zerv", "bogus"])], lambda: ["--schema", pick(_SCHEMAS)], lambda: ["--schema-ron", pick(_RONS)],
+                lambda: ["--distance", pick(_NUMS)], lambda: [pick(["--dirty", "--no-dirty", "--clean"])], lambda: ["--bumped-branch", pick(_TEXTS)],
+                lambda: ["--bumped-commit-hash", pick(_TEXTS)], lambda: ["--bumped-timestamp", pick(_NUMS)], lambda: ["--output-template", pick(_TEMPLATES)],
+                lambda: ["--output-prefix", pick(_TEXTS)], lambda: ["--post", pick(_NUMS)], lambda: ["--pre-release-label", pick(["alpha", "beta", "rc", "a", "RC", "gamma", ""])],
+                lambda: ["--pre-release-num", pick(_NUMS)]]
+        if sub == "version":
+            opts += [lambda: [pick(["--major", "--minor", "--patch", "--epoch", "--dev"]), pick(_NUMS)],
+                     lambda: [pick(["--bump-major", "--bump-minor", "--bump-patch", "--bump-epoch", "--bump-post", "--bump-dev", "--bump-pre-release-num"])] + ([pick(_NUMS)] if rnd.random() < 0.6 else []),
+                     lambda: ["--bump-pre-release-label", pick(["alpha", "beta", "rc", "x", ""])], lambda: [pick(["--core", "--extra-core", "--build"]), pick(_INDEX_OPS)],
+                     lambda: [pick(["--bump-core", "--bump-extra-core", "--bump-build"]), pick(_INDEX_OPS)], lambda: ["--custom", pick(_JSON)],
+                     lambda: [pick(["--bump-context", "--no-bump-context"])]]
+        else:
+            opts += [lambda: ["--post-mode", pick(["tag", "commit", "x"])], lambda: ["--hash-branch-len", pick(["1", "5", "10", "0", "11", "x"])],
+                     lambda: ["--branch-rules", pick(["[(pattern: \"x\", pre_release_label: rc, pre_release_num: 1, post_mode: tag)]", "[(pattern: \"*\", pre_release_label: alpha, post_mode: commit)]",
+                                                      "[(pattern: \"a/*\", pre_release_label: beta, pre_release_num: 3, post_mode: tag)]", "[]", "[(pattern: \"x\"", "nope"])]]
+        for _ in range(rnd.randint(0, 6)):
+            argv += pick(opts)()
+    elif sub == "render":
+        argv += [pick(_VERSIONS)]
+        for _ in range(rnd.randint(0, 3)):
+            argv += pick([lambda: ["--input-format", pick(["semver", "pep440", "auto", "bogus"])], lambda: ["--output-format", pick(["semver", "pep440", "zerv", "bogus"])],
+                          lambda: ["--template", pick(_TEMPLATES)], lambda: ["--output-prefix", pick(_TEXTS)]])()
+    else:
+        argv += [pick(_VERSIONS)] + (["--format", pick(["semver", "pep440", "auto", "bogus"])] if rnd.random() < 0.7 else [])
+    stdin_text = None
+    if "stdin" in argv:
+        stdin_text = pick([RON_OK, "", "garbage", RON_OK.replace("Some(1)", "Some(18446744073709551615)"), RON_OK.replace("var(Major)", "var(Epoch)"), RON_OK[:200]])
+    return argv, stdin_text
+
+
 def _run(zerv, argv, stdin_text, cwd, env):
     try:
         p = subprocess.run([zerv] + argv, input=(stdin_text if stdin_text is not None else None),
@@ -139,7 +196,8 @@ def run(tier="quick", seed=0):
             if rc < 0 or rc in (101, 134) or b"panicked at" in err:
                 bad("panic", f"`zerv {show}` panicked or was killed (status {rc}): {err.decode('utf-8', 'replace')[:300]!r}")
                 return None
-            if rc == 0 and not out.strip() and argv:   # no sub-command: nothing was requested
+            if rc == 0 and not out.strip() and argv and not any(a in ("--output-template", "--template") for a in argv):
+                # (no sub-command: nothing was requested; a template may legitimately render to nothing)
                 bad("empty-success", f"`zerv {show}` exited 0 with nothing on stdout")
             if rc != 0 and out:
                 bad("stdout-on-failure", f"`zerv {show}` exited {rc} but wrote to stdout: {out.decode('utf-8', 'replace')[:200]!r}")
@@ -163,6 +221,20 @@ def run(tier="quick", seed=0):
                 if mask(again[1]) != mask(plain[1]) or again[0] != plain[0]:
                     bad("logs-on-stdout", f"`zerv {' '.join(repr(a) for a in argv)}`{label}: stdout/status differ from the plain run: "
                                           f"{plain[0]} {plain[1].decode('utf-8', 'replace')[:160]!r} vs {again[0]} {again[1].decode('utf-8', 'replace')[:300]!r}")
+        if tier == "thorough" or os.environ.get("VERIF_CLI_RANDOM"):
+            import random
+            rnd = random.Random(1000003 * int(seed) + 17)
+            n = int(os.environ.get("VERIF_CLI_RANDOM", "600"))
+            for _ in range(n):
+                argv, stdin_text = _random_vector(rnd)
+                plain = discipline(argv, stdin_text, work, base_env, " [random]")
+                if plain is not None and rnd.random() < 0.3 and not any("timestamp" in a or "dirty" == a.strip("-") for a in argv):
+                    again = discipline(argv + ["-v"], stdin_text, work, base_env, " [random] -v")
+                    if again is not None:
+                        import re
+                        mask = lambda b: re.sub(rb"\d{9,}", b"<ts>", b)
+                        if mask(again[1]) != mask(plain[1]) or again[0] != plain[0]:
+                            bad("logs-on-stdout", f"`zerv {' '.join(repr(a) for a in argv)}` -v: stdout/status differ from the plain run")
         # every git invocation failing
         empty = os.path.join(work, "norepo")
         os.makedirs(empty)
